@@ -25,6 +25,35 @@ SEEDS = {
  "C19": dict(prop="C19", file="pool/utils.py (IndexClassifierWrapper.partial_fit)", needs="an earlier fit/partial_fit with an explicit sample_weight that differs from the constructor's weights, followed by a partial_fit on the refit path", caught_by=["C19"], first_version="MISSED: the operation alphabet had label overrides but no sample_weight overrides; it has now"),
  "C20": dict(prop="C20", file="pool/_wrapper.py (ParallelUtilityEstimationWrapper.query)", needs="an exact tie of the maximal utility (cold start, duplicated points) and an integer random_state", caught_by=["C20"], first_version="caught"),
 }
+
+# round 2: sub-agents were told where the round-1 attempt for their property was made and asked for a different function and mechanism
+SEEDS.update({
+ "C01b": dict(prop="C01", file="pool/_core_set.py (_update_distances)", needs="coincident samples such that, inside one batch, every remaining candidate is at distance 0 of an earlier pick, at least two earlier picks in that batch, and a tie-break that lands on one of them", caught_by=["C01", "C14"], first_version="caught (duplicate_index on the duplicated-point pool under a non-default tie tape)",
+              note="a second sub-agent (property C14) independently delivered the same change of the same function (seeded/C14b is therefore not kept separately); C14 reports it as well (cycle 1, batch size 3, indices [2, 1, 2])"),
+ "C02b": dict(prop="C02", file="pool/_typi_clust.py (query)", needs="batch_size >= 2 and a cluster whose most typical sample was already selected in an earlier step (argmax over the unmasked typicality)", caught_by=["C02", "C01"], first_version="caught"),
+ "C03b": dict(prop="C03", file="stream/_cognitive_dual_query_strategy.py (query)", needs="a query of a chunk with more than one instance: the loop variable overwrites the saved clock, so the simulated state is not rolled back", caught_by=["C03"], first_version="caught"),
+ "C04b": dict(prop="C04", file="stream/budgetmanager/_estimated_budget_zliobaite.py (VariableUncertaintyBudgetManager.update)", needs="update of a chunk of more than one instance with a granted label that is not the last instance of the chunk", caught_by=["C04", "C10"], first_version="caught"),
+ "C05b": dict(prop="C05", file="utils/_aggregation.py (compute_vote_vectors)", needs="a float64 sample_weight array and at least one unlabeled sample (the weights of unlabeled samples are zeroed in the caller's array)", caught_by=["C05", "C12", "C17"], first_version="caught (the same one-line change as the round-1 seed for C12, delivered independently)"),
+ "C06b": dict(prop="C06", file="utils/_validation.py (check_random_state)", needs="random_state given as a RandomState instance and a seed multiplier of exactly 1 (e.g. SubSamplingWrapper at cold start): the caller's generator is returned instead of a derived copy, so repeating the call gives another result", caught_by=["C06"], first_version="caught"),
+ "C07b": dict(prop="C07", file="base.py (MultiAnnotatorPoolQueryStrategy._validate_data)", needs="an availability matrix that is not already of dtype bool (integer 0/1) together with SingleAnnotatorWrapper", caught_by=["C07"],
+              first_version="MISSED: availability matrices were generated with dtype bool only; C07 now also passes a sample of them as integer 0/1 matrices"),
+ "C08b": dict(prop="C08", file="pool/_expected_error_reduction.py (ValueOfInformationEER)", needs="a proper subset of the unlabeled samples as candidates (the other unlabeled samples are dropped from the evaluation set)", caught_by=["C08"], first_version="caught"),
+ "C09b": dict(prop="C09", file="base.py (PoolQueryStrategy._validate_data)", needs="NaN as missing label (y == nan is never true), an integer random_state and a strategy whose selection consumes randomness (ties): the derived seed differs between the NaN encoding and every other encoding", caught_by=["C09"],
+              first_version="MISSED: C09 ran every encoding under the tie-level substitution with the default tape, which makes the random stream invisible; it now has a real-generator pass on the duplicated-point pool"),
+ "C10b": dict(prop="C10", file="stream/budgetmanager/_estimated_budget_zliobaite.py (VariableUncertaintyBudgetManager.update)", needs="update of a chunk with more than one instance (the threshold is adapted once per chunk instead of once per instance)", caught_by=["C10"], first_version="caught"),
+ "C11b": dict(prop="C11", file="classifier/_wrapper.py (SklearnClassifier._fit)", needs="declared classes, a wrapped estimator that cannot be fitted (one class observed) and the observed class not being the last declared class", caught_by=["C11"], first_version="caught"),
+ "C12b": dict(prop="C12", file="regressor/_wrapper.py (SklearnRegressor._fit)", needs="the same wrapper object fitted twice (label reveal) around a wrapped estimator whose own fit is not history-free (warm_start=True, or a RandomState instance as random_state)", caught_by=["C12", "C13"],
+              first_version="MISSED by C12 (caught by C13, which already had a warm-start regressor): the two-step reveal of C12 used a second learner object; it now also refits the same object and includes warm-start / generator-seeded wrapped estimators"),
+ "C13b": dict(prop="C13", file="classifier/_parzen_window_classifier.py (fit)", needs="metric_dict given by the caller and gamma='mean' (the resolved gamma is written into the caller's dict before it is copied)", caught_by=["C13"], first_version="caught"),
+ "C15b": dict(prop="C15", file="regressor/_wrapper.py (SklearnRegressor._fit)", needs="exactly one labeled sample (or one with non-zero weight) and a wrapped estimator that cannot be fitted on it: the label standard deviation becomes 0 and the fall-back mean NaN", caught_by=["C15"], first_version="caught"),
+ "C16b": dict(prop="C16", file="utils/_label_encoder.py (ExtLabelEncoder)", needs="string labels with a string sentinel that is longer than every class name (the stored dtype truncates the sentinel on inverse_transform)", caught_by=["C16"], first_version="caught"),
+ "C17b": dict(prop="C17", file="utils/_aggregation.py (majority_vote)", needs="a labeled sample all of whose votes have weight zero", caught_by=["C17"], first_version="caught"),
+ "C18b": dict(prop="C18", file="utils/_selection.py (rand_argmin)", needs="an array containing -inf or +inf next to NaN (nan_to_num maps the infinities to finite numbers)", caught_by=["C18"], first_version="caught"),
+ "C19b": dict(prop="C19", file="pool/utils.py (IndexClassifierWrapper.fit)", needs="native partial_fit, base model set by fit(set_base_clf=True), then an update of the current model that does not restart from the base, then partial_fit(use_base_clf=True)", caught_by=["C19"],
+              first_version="MISSED: the history fit(A, set_base) -> partial_fit(b) was merged with fit(A) -> partial_fit(b, set_base), which has the same attribute *values*; state merging now uses a fingerprint that records which mutable sub-objects are the same object, and the merge key is the product of implementation state and reference-model state (C19, C13, C03/C10, C04)"),
+ "C20b": dict(prop="C20", file="pool/_wrapper.py (SubSamplingWrapper.query)", needs="exclude_non_subsample=True and a missing-label sentinel other than NaN", caught_by=["C20", "C09"],
+              first_version="MISSED by C20 (caught by C09): C20 used NaN as missing label only; its sub-sampling part now also runs with the reserved number -1"),
+})
 INVALID = {"C02": "rand_argmax with np.isclose: FAILS skactiveml/pool/tests/test_uncertainty_sampling.py::TestUncertaintySampling::test_query under the repository's serial baseline command (it only passes under pytest-xdist, which the sub-agent used); not kept. C02 (real-seed runs) and C18 (near-tie alphabet, added because of it) both report it.",
            "C18": "identical patch to the C02 attempt (np.isclose in rand_argmax); not kept for the same reason."}
 
@@ -39,6 +68,8 @@ def main():
             if os.path.exists(os.path.join(src, f)):
                 shutil.copy(os.path.join(src, f), os.path.join(dst, f))
         serial = ""
+        if not os.path.isdir(src) and os.path.exists(os.path.join(dst, "meta.json")):
+            continue  # already stored in an earlier session
         p = "/tmp/probe/ss_%s.txt" % sid
         if os.path.exists(p):
             serial = [l.strip() for l in open(p) if "passed" in l][-1:] or [""]
@@ -51,8 +82,9 @@ def main():
             "confirmed_by_me": {
                 "patch_applies_to": "/repo HEAD (scratch worktree)",
                 "repository_suite_serial_baseline_cmd": serial or "see MUTATIONS.md",
-                "demo": "tools/confirm_seed.sh: demo.py exits 0 on the clean tree and 1 on the patched tree",
-                "commands": ["tools/confirm_seed.sh %s seeded/%s" % (sid, sid), "tools/serial_suite.sh <patched worktree> %s" % sid],
+                "demo": "demo.py exits 0 on the clean tree and 1 on the patched tree",
+                "commands": ["tools/confirm2.sh %s <checks>" % sid if sid.endswith("b") else "tools/confirm_seed.sh %s seeded/%s" % (sid, sid),
+                             "tools/serial_suite.sh <patched worktree> %s" % sid],
             },
             "caught_by": m["caught_by"],
             "first_version_of_the_checks": m["first_version"],
@@ -62,6 +94,8 @@ def main():
         json.dump(meta, open(os.path.join(dst, "meta.json"), "w"), indent=1)
     json.dump(INVALID, open(os.path.join(home, "seeded", "NOT_KEPT.json"), "w"), indent=1)
     print("seeded:", sorted(SEEDS))
+    for sid, m in sorted(SEEDS.items()):
+        print("| %s | %s | %s | %s | %s |" % (sid, m["prop"], m["file"], ", ".join(m["caught_by"]), m["first_version"]))
 
 
 if __name__ == "__main__":
